@@ -628,3 +628,54 @@ Proof.
   - discriminate.
   - discriminate.
 Qed.
+
+(* ---- the library's own cache refines the abstract listener (a hop of the end-to-end argument, C04) ---- *)
+Definition held (c : cache) : list record := map e_rec (c_entries c).
+
+Lemma add_is_listen1 now j r c : held (fst (add now j r c)) = listen1 (held c) r.
+Proof.
+  unfold held, listen1. rewrite add_entries, map_app. f_equal.
+  - induction (c_entries c) as [|e es IH]; cbn [filter map]; [reflexivity|]. unfold matches at 1.
+    destruct (spec_match r (e_rec e)); cbn [negb map]; rewrite IH; reflexivity.
+  - unfold new_entry. destruct (r_ttl r =? 0)%N; reflexivity.
+Qed.
+
+(* a cache that hears the multicast responses among some effects: every record goes through Cache::addRecord, at any
+   instant and with any jitter *)
+Fixpoint hear (times : list (Z * Z)) (c : cache) (es : list eff) : cache :=
+  match es with
+  | [] => c
+  | ESendAll m :: es' =>
+      let '(now, j) := hd (0, 0) times in
+      hear (tl times) (if m_response m then fold_left (fun c r => fst (add now j r c)) (m_records m) c else c) es'
+  | _ :: es' => hear times c es'
+  end.
+
+Theorem cache_refines_listener : forall es times c, held (hear times c es) = listen (held c) es.
+Proof.
+  induction es as [|e es IH]; intros times c; cbn [hear listen]; [reflexivity|].
+  destruct e as [m|m|ob sg p|tid ms|tid|rs]; try apply IH.
+  destruct (hd (0, 0) times) as [now j]. rewrite IH. f_equal. destruct (m_response m); [|reflexivity].
+  unfold listen_msg. generalize c. induction (m_records m) as [|r rs IHr]; intro c0; cbn [fold_left]; [reflexivity|].
+  rewrite IHr, add_is_listen1. reflexivity.
+Qed.
+
+(* the composite together with a remote cache that hears all of its multicast responses (no loss, no expiry in between) *)
+Inductive lcreach : comp -> list record -> cache -> Prop :=
+| lc_init local ifs : lcreach (mkComp (fst (on_rebroadcast (mkHost local ifs [] [] false 1))) no_prov None) [] empty_cache
+| lc_step c L C now ev times : lcreach c L C -> one_provider c ev ->
+    lcreach (fst (comp_handle now c ev)) (listen L (snd (comp_handle now c ev))) (hear times C (snd (comp_handle now c ev))).
+
+Theorem remote_cache_holds_served c L C :
+  lcreach c L C ->
+  lreach c L /\ held C = L /\
+  (pv_exists (cp_prov c) = true -> pv_confirmed (cp_prov c) = true -> held C = [pv_ptr (cp_prov c); pv_srv (cp_prov c); pv_txt (cp_prov c)]) /\
+  (pv_exists (cp_prov c) && pv_confirmed (cp_prov c) = false -> held C = []).
+Proof.
+  intro R. assert (H : lreach c L /\ held C = L).
+  { induction R as [local ifs|c L C now ev times R [IH1 IH2] One]; [split; [constructor|reflexivity]|].
+    split; [apply lr_step; assumption|]. rewrite cache_refines_listener, IH2. reflexivity. }
+  destruct H as [H1 H2]. split; [exact H1|]. split; [exact H2|]. pose proof (lreach_inv c L H1) as I. split.
+  - intros E Cf. rewrite H2. destruct (ci_served _ _ I E Cf) as (_ & _ & _ & _ & HL). exact HL.
+  - intro U. rewrite H2. exact (ci_unserved _ _ I U).
+Qed.
